@@ -31,12 +31,13 @@ type C19Call struct {
 }
 
 type C19Plan struct {
-	Type     string    `json:"type"`  // "ed" | "rsa"
-	Holds    string    `json:"holds"` // "A" (matched) | "B" (PEM holds another key of the same type) | "X" (PEM holds a key of the OTHER type)
-	Rounds16 bool      `json:"rounds16,omitempty"`
-	Collide  bool      `json:"collide,omitempty"` // ed only: A and B are two different keys whose 4-byte stanza tags are equal (found by a birthday search, committed as fixtures): what tells them apart is the public key, never the tag
-	Twin     bool      `json:"twin,omitempty"`    // before the history, ANOTHER identity value built from the same key file bytes (declaring the key the file really holds) unlocks and validates its key once
-	Calls    []C19Call `json:"calls"`
+	Type      string    `json:"type"`  // "ed" | "rsa"
+	Holds     string    `json:"holds"` // "A" (matched) | "B" (PEM holds another key of the same type) | "X" (PEM holds a key of the OTHER type)
+	Rounds16  bool      `json:"rounds16,omitempty"`
+	Collide   bool      `json:"collide,omitempty"`    // ed only: A and B are two different keys whose 4-byte stanza tags are equal (found by a birthday search, committed as fixtures): what tells them apart is the public key, never the tag
+	SharedBuf bool      `json:"shared_buf,omitempty"` // the passphrase callback hands out the same buffer every time (an application that keeps the passphrase it was given once)
+	Twin      bool      `json:"twin,omitempty"`       // before the history, ANOTHER identity value built from the same key file bytes (declaring the key the file really holds) unlocks and validates its key once
+	Calls     []C19Call `json:"calls"`
 }
 
 type C19 struct{}
@@ -61,7 +62,7 @@ func (C19) Meta() core.Meta {
 		Real:        []string{"agessh.EncryptedSSHIdentity", "agessh Ed25519/RSA identities", "x/crypto/ssh key parsing", "filippo.io/age Decrypt"},
 		Stub:        []string{"passphrase callback", "files (reference writer)", "source"},
 		FaultKinds:  []string{"fault.passphrase_wrong", "fault.passphrase_error", "fault.mismatched_private_key"},
-		Probes:      []string{"probe.prompted", "probe.no_prompt_no_match", "probe.validated_then_reused", "probe.after_mismatch_file_to_B", "probe.after_mismatch_same_file", "probe.after_wrong_then_right", "probe.match_not_first_stanza", "probe.same_type_other_tag", "probe.crafted_other_type_same_tag", "probe.crafted_same_tag_bad_body", "probe.crafted_other_tag_bad_args", "probe.key_file_of_other_type", "probe.twin_identity_validated_first", "probe.colliding_tags"},
+		Probes:      []string{"probe.prompted", "probe.no_prompt_no_match", "probe.validated_then_reused", "probe.after_mismatch_file_to_B", "probe.after_mismatch_same_file", "probe.after_wrong_then_right", "probe.match_not_first_stanza", "probe.same_type_other_tag", "probe.crafted_other_type_same_tag", "probe.crafted_same_tag_bad_body", "probe.crafted_other_tag_bad_args", "probe.key_file_of_other_type", "probe.twin_identity_validated_first", "probe.colliding_tags", "probe.passphrase_buffer_shared"},
 	}
 }
 
@@ -77,6 +78,7 @@ func (C19) Generate(r *core.RNG, tier string, idx uint64) interface{} {
 		p.Rounds16 = true
 	}
 	p.Twin = r.Chance(1, 4)
+	p.SharedBuf = r.Chance(1, 3)
 	if p.Type == "ed" && p.Holds != "X" && !p.Rounds16 && r.Chance(1, 6) {
 		p.Collide = true
 		p.Twin = false
@@ -146,6 +148,11 @@ func (C19) Shrinks(plan interface{}) []interface{} {
 	if p.Twin {
 		q := *p
 		q.Twin = false
+		out = append(out, &q)
+	}
+	if p.SharedBuf {
+		q := *p
+		q.SharedBuf = false
 		out = append(out, &q)
 	}
 	for i, cl := range p.Calls {
@@ -228,12 +235,22 @@ func (e C19) Execute(plan interface{}, c *core.Ctx) *core.Verdict {
 	}
 	prompts := 0
 	answer := "right"
+	rightBuf, wrongBuf := []byte(pass), []byte("not the passphrase")
+	if p.SharedBuf {
+		c.Stats.Inc("probe.passphrase_buffer_shared")
+	}
 	id, err := agessh.NewEncryptedSSHIdentity(ks.pubA, pem, func() ([]byte, error) {
 		prompts++
 		switch answer {
 		case "right":
+			if p.SharedBuf {
+				return rightBuf, nil
+			}
 			return []byte(pass), nil
 		case "wrong":
+			if p.SharedBuf {
+				return wrongBuf, nil
+			}
 			return []byte("not the passphrase"), nil
 		case "error-with-value":
 			// the callback fails but still hands back what was typed: it must count as a failure
@@ -263,7 +280,13 @@ func (e C19) Execute(plan interface{}, c *core.Ctx) *core.Verdict {
 			return core.Fail("harness", "twin pub: %v", err)
 		}
 		tp := 0
-		twin, err := agessh.NewEncryptedSSHIdentity(pubHeld, pem, func() ([]byte, error) { tp++; return []byte(pass), nil })
+		twin, err := agessh.NewEncryptedSSHIdentity(pubHeld, pem, func() ([]byte, error) {
+			tp++
+			if p.SharedBuf {
+				return rightBuf, nil // both identity values are fed from the application's one buffer
+			}
+			return []byte(pass), nil
+		})
 		if err != nil {
 			return core.Fail("harness", "twin: %v", err)
 		}
@@ -300,6 +323,9 @@ func (e C19) Execute(plan interface{}, c *core.Ctx) *core.Verdict {
 	skeleton := p.Type + "/" + p.Holds
 	if p.Collide {
 		skeleton += "/collide"
+	}
+	if p.SharedBuf {
+		skeleton += "/sharedbuf"
 	}
 	if p.Twin {
 		skeleton += "/twin"
